@@ -3,11 +3,128 @@ import Preflate.Model.Params
 namespace Preflate.Proofs
 open Preflate
 
+@[simp] theorem popValue_value (b v : Nat) (r : List Op) :
+    popValue b (Op.value b v :: r) = .ok (v, r) := by
+  simp [popValue]
+
+theorem tryU16_ok {x : Nat} (s : String) (h : x < 65536) : tryU16 x s = .ok x := by
+  simp [tryU16, h]
+
+@[simp] theorem b2n_ne_zero (b : Bool) : decide (b2n b ≠ 0) = b := by
+  cases b <;> simp [b2n]
+
+@[simp] theorem b2n_eq_zero (b : Bool) : (b2n b = 0) ↔ b = false := by
+  cases b <;> simp [b2n]
+
+theorem b2n_lt_two (b : Bool) : b2n b < 2 := by
+  cases b <;> simp [b2n]
+
+/-- the explicit op list `writeParams` produces on well-formed parameters -/
+def hdrOps (p : Params) : List Op :=
+  [Op.value 8 Gen.FILE_VERSION, Op.value 4 p.strategy, Op.value 4 p.huffStrategy,
+   Op.value 1 (b2n p.zlibCompatible), Op.value 8 p.windowBits] ++
+  (if p.hashAlg = 1 then [Op.value 4 1, Op.value 8 p.hashShift, Op.value 16 p.hashMask]
+   else [Op.value 4 p.hashAlg]) ++
+  [Op.value 16 p.maxTokenCount, Op.value 16 p.maxDist3, Op.value 1 (b2n p.veryFar),
+   Op.value 1 (b2n p.matchesToStart), Op.value 16 (if p.isLazy then p.goodLength else 0),
+   Op.value 16 (if p.isLazy then p.maxLazy else 0), Op.value 16 p.niceLength,
+   Op.value 16 p.maxChain, Op.value 16 p.minLen] ++
+  (if p.addPolicy = 1 ∨ p.addPolicy = 2 then [Op.value 3 p.addPolicy, Op.value 8 p.addLimit]
+   else [Op.value 3 p.addPolicy])
+
+theorem writeParams_eq (p : Params) (h : p.WF) : writeParams p = .ok (hdrOps p) := by
+  obtain ⟨h1, h2, h3, h4, h5, h6, h7, h8, h9, h10, h11, h12, h13, h14, h15⟩ := h
+  unfold writeParams hdrOps
+  rw [tryU16_ok _ (Nat.lt_trans h3 (by decide)), tryU16_ok _ h11, tryU16_ok _ h12, tryU16_ok _ h13]
+  by_cases ha : p.hashAlg = 1
+  · simp only [ha, if_true] at h5 ⊢
+    rw [tryU16_ok _ (Nat.lt_trans h5 (by decide))]
+    cases p.isLazy <;> rfl
+  · simp only [ha, if_false]
+    cases p.isLazy <;> rfl
+
+theorem readParams_hdrOps (p : Params) (h : p.WF) (rest : List Op) :
+    readParams (hdrOps p ++ rest) = .ok (p, rest) := by
+  obtain ⟨strategy, huff, zc, wb, alg, shift, mask, mtc, md3, vf, mts, isLazy, good, mlazy, nice,
+    chain, minLen, pol, limit⟩ := p
+  obtain ⟨h1, h2, h3, h4, h5, h6, h7, h8, h9, h10, h11, h12, h13, h14, h15⟩ := h
+  simp only at h1 h2 h3 h4 h5 h6 h7 h8 h9 h10 h11 h12 h13 h14 h15
+  by_cases ha : alg = 1
+  · simp only [ha, if_true] at h5 h6
+    subst ha
+    cases isLazy
+    · obtain ⟨rfl, rfl⟩ := h10 rfl
+      by_cases hp : pol = 1 ∨ pol = 2
+      · simp [readParams, hdrOps, bind, Except.bind, pure, Except.pure, Nat.not_lt.mpr h1, Nat.not_lt.mpr h2, *]
+      · simp only [hp, if_false] at h15
+        subst h15
+        have hp' : pol = 0 ∨ pol = 3 ∨ pol = 4 := by omega
+        simp [readParams, hdrOps, bind, Except.bind, pure, Except.pure, Nat.not_lt.mpr h1, Nat.not_lt.mpr h2, *]
+    · obtain ⟨hl1, hl2, hl3⟩ := h9 rfl
+      by_cases hp : pol = 1 ∨ pol = 2
+      · simp [readParams, hdrOps, bind, Except.bind, pure, Except.pure, Nat.not_lt.mpr h1, Nat.not_lt.mpr h2, *]
+      · simp only [hp, if_false] at h15
+        subst h15
+        have hp' : pol = 0 ∨ pol = 3 ∨ pol = 4 := by omega
+        simp [readParams, hdrOps, bind, Except.bind, pure, Except.pure, Nat.not_lt.mpr h1, Nat.not_lt.mpr h2, *]
+  · simp only [ha, if_false] at h5 h6
+    subst h5 h6
+    cases isLazy
+    · obtain ⟨rfl, rfl⟩ := h10 rfl
+      by_cases hp : pol = 1 ∨ pol = 2
+      · simp [readParams, hdrOps, bind, Except.bind, pure, Except.pure, Nat.not_lt.mpr h1, Nat.not_lt.mpr h2, *]
+      · simp only [hp, if_false] at h15
+        subst h15
+        have hp' : pol = 0 ∨ pol = 3 ∨ pol = 4 := by omega
+        simp [readParams, hdrOps, bind, Except.bind, pure, Except.pure, Nat.not_lt.mpr h1, Nat.not_lt.mpr h2, *]
+    · obtain ⟨hl1, hl2, hl3⟩ := h9 rfl
+      by_cases hp : pol = 1 ∨ pol = 2
+      · simp [readParams, hdrOps, bind, Except.bind, pure, Except.pure, Nat.not_lt.mpr h1, Nat.not_lt.mpr h2, *]
+      · simp only [hp, if_false] at h15
+        subst h15
+        have hp' : pol = 0 ∨ pol = 3 ∨ pol = 4 := by omega
+        simp [readParams, hdrOps, bind, Except.bind, pure, Except.pure, Nat.not_lt.mpr h1, Nat.not_lt.mpr h2, *]
+
+theorem hdrOps_wf (p : Params) (h : p.WF) : ∀ o ∈ hdrOps p, o.WF := by
+  obtain ⟨h1, h2, h3, h4, h5, h6, h7, h8, h9, h10, h11, h12, h13, h14, h15⟩ := h
+  have hz := b2n_lt_two p.zlibCompatible
+  have hvf := b2n_lt_two p.veryFar
+  have hmts := b2n_lt_two p.matchesToStart
+  have hver : Gen.FILE_VERSION < 256 := by decide
+  have hg : (if p.isLazy then p.goodLength else 0) < 65536 := by
+    split
+    · rename_i hl; exact (h9 hl).2.2
+    · decide
+  have hm : (if p.isLazy then p.maxLazy else 0) < 65536 := by
+    split
+    · rename_i hl; exact (h9 hl).2.1
+    · decide
+  unfold hdrOps
+  split at h5 <;> split at h15 <;> rename_i ha hp <;>
+    simp only [ha, hp, if_true, if_false] at h6 ⊢ <;>
+    simp [Op.WF] <;> omega
+
 theorem readParams_writeParams (p : Params) (h : p.WF) (rest : List Op) :
-    ∃ ops, writeParams p = .ok ops ∧ readParams (ops ++ rest) = .ok (p, rest) ∧ ∀ o ∈ ops, o.WF := by
-  sorry
+    ∃ ops, writeParams p = .ok ops ∧ readParams (ops ++ rest) = .ok (p, rest) ∧ ∀ o ∈ ops, o.WF :=
+  ⟨hdrOps p, writeParams_eq p h, readParams_hdrOps p h rest, hdrOps_wf p h⟩
 
 theorem estimatorRange_wf (p : Params) (h : EstimatorRange p) : p.WF := by
-  sorry
+  obtain ⟨strategy, huff, zc, wb, alg, shift, mask, mtc, md3, vf, mts, isLazy, good, mlazy, nice,
+    chain, minLen, pol, limit⟩ := p
+  rcases h with ⟨heq, hs, hh⟩ | ⟨h1, h2, h3, h4, h5, h6, h7, h8, h9, h10, h11, h12, h13, h14, h15,
+    h16, h17⟩
+  · simp only [Params.mk.injEq, true_and] at heq
+    obtain ⟨rfl, rfl, rfl, rfl, rfl, rfl, rfl, rfl, rfl, rfl, rfl, rfl, rfl, rfl, rfl, rfl, rfl⟩ := heq
+    simp only at hs hh
+    constructor <;> simp <;> omega
+  · simp only at h1 h2 h3 h4 h5 h6 h7 h8 h9 h10 h11 h12 h13 h14 h15 h16 h17
+    by_cases ha : alg = 1 <;> by_cases hp : (pol = 1 ∨ pol = 2) <;>
+      simp only [ha, hp, if_true, if_false] at h7 h17 <;>
+      cases isLazy <;> simp only [if_true, if_false, Bool.false_eq_true] at h10 <;>
+      constructor <;> simp only [ha, hp, if_true, if_false] <;>
+      first
+        | omega
+        | (intro _; omega)
+        | (intro hc; cases hc)
 
 end Preflate.Proofs
